@@ -191,3 +191,14 @@ M("plumb-pool-drops-uds", "C10", A + "connection_pool.py", "            uds=self
 M("plumb-connection-keepalive-default", "C09", A + "connection.py", "        self._keepalive_expiry = keepalive_expiry\n", "        self._keepalive_expiry = keepalive_expiry or None\n", "C09.R7")
 M("plumb-tunnel-ssl-context-swapped", "C10", A + "http_proxy.py", "            remote_origin=origin,\n            ssl_context=self._ssl_context,\n            proxy_ssl_context=self._proxy_ssl_context,",
   "            remote_origin=origin,\n            ssl_context=self._proxy_ssl_context,\n            proxy_ssl_context=self._proxy_ssl_context,", "C10.R8")
+# ---- support code (support.py), derived identity, backend TLS failure path ---------------------------------
+M("sup-request-no-finally", "C05", A + "interfaces.py", "        response = await self.handle_async_request(request)\n        try:\n            await response.aread()\n        finally:\n            await response.aclose()\n        return response",
+  "        response = await self.handle_async_request(request)\n        await response.aread()\n        await response.aclose()\n        return response", "C05.R8")
+M("sup-stream-close-on-success-only", "C05", A + "interfaces.py", "        try:\n            yield response\n        finally:\n            await response.aclose()", "        yield response\n        await response.aclose()", "C05.R8")
+M("sup-response-aclose-skips-iterating", "C05", "httpcore/_models.py", "        if hasattr(self.stream, \"aclose\"):\n            await self.stream.aclose()", "        if hasattr(self.stream, \"aclose\") and not hasattr(self, \"_content\"):\n            await self.stream.aclose()", "C05.R8")
+M("sup-pool-exit-skips-close-on-error", "C06", A + "connection_pool.py", "        traceback: types.TracebackType | None = None,\n    ) -> None:\n        await self.aclose()", "        traceback: types.TracebackType | None = None,\n    ) -> None:\n        if exc_type is None:\n            await self.aclose()", "C06.R8")
+M("sup-api-request-no-pool-scope", "C06", "httpcore/_api.py", "    with ConnectionPool() as pool:\n        return pool.request(", "    pool = ConnectionPool()\n    if True:\n        return pool.request(", "C06.R8")
+M("id-tunnel-connect-url-default-port", "C10", A + "http_proxy.py", "                    host=self._proxy_origin.host,\n                    port=self._proxy_origin.port,\n                    target=target,", "                    host=self._proxy_origin.host,\n                    target=target,", "C10.R9")
+M("tl-trio-timeout-scope-outside-try", "C06", "httpcore/_backends/trio.py", "            try:\n                with trio.fail_after(timeout_or_inf):\n                    await ssl_stream.do_handshake()\n            except Exception as exc:  # pragma: nocover\n                await self.aclose()\n                raise exc",
+  "            with trio.fail_after(timeout_or_inf):\n                try:\n                    await ssl_stream.do_handshake()\n                except Exception as exc:  # pragma: nocover\n                    await self.aclose()\n                    raise exc", "C06.R5")
+M("tl-anyio-reset-is-eof", "C02", "httpcore/_backends/anyio.py", "                except anyio.EndOfStream:  # pragma: nocover\n                    return b\"\"", "                except (anyio.EndOfStream, anyio.ClosedResourceError):  # pragma: nocover\n                    return b\"\"", "C02.R7")
